@@ -622,11 +622,13 @@ def run(repo: Repo, R: Report) -> None:
         for mod, qn, f in repo.all_functions():
             if mod.rel.startswith("semantiva/examples/"):
                 continue
-            # the literal itself, or a module-level constant holding it (hoisted), also when imported from its module
+            # a string literal that opens with the prefix - the prefix itself (`"p-" + h`, f"p-{h}") or a template that
+            # starts with it (`"p-%s" % h`, `"p-{}".format(h)`) -, or a module-level constant holding such a literal
+            # (hoisted), also when imported from its module
             holders = _prefix_holders(repo, mod, prefix)
             local = _local_names(f) if holders else set()
             for n in walk_no_nested(f):
-                if isinstance(n, ast.Constant) and isinstance(n.value, str) and n.value == prefix:
+                if _opens_with(n, prefix):
                     owners.append((mod.rel, qn))
                 elif isinstance(n, ast.Name) and isinstance(n.ctx, ast.Load) and n.id in holders and n.id not in local:
                     owners.append((mod.rel, qn))
@@ -651,12 +653,17 @@ def run(repo: Repo, R: Report) -> None:
         R.rule_prefix = ""
 
 
+def _opens_with(v, prefix: str) -> bool:
+    """*v* is a string literal whose text begins with *prefix* (the prefix alone or a format template that starts with it)."""
+    return isinstance(v, ast.Constant) and isinstance(v.value, str) and v.value.startswith(prefix)
+
+
 def _prefix_holders(repo: Repo, mod, prefix: str) -> Set[str]:
-    """Names that denote the string *prefix* in *mod*: module-level constants bound to it, here or imported."""
-    out = {k for k, v in module_constants(mod).items() if isinstance(v, ast.Constant) and v.value == prefix}
+    """Names that denote a string opening with *prefix* in *mod*: module-level constants bound to it, here or imported."""
+    out = {k for k, v in module_constants(mod).items() if _opens_with(v, prefix)}
     for alias, nm, origin in _imported_names(repo, mod):
         v = module_constants(origin).get(nm)
-        if isinstance(v, ast.Constant) and v.value == prefix:
+        if _opens_with(v, prefix):
             out.add(alias)
     return out
 
